@@ -1939,6 +1939,12 @@ def apply(ex, ctx, st, f, args, dest_ty, term):
             return res, st
         raise Uncertified("str::contains with a symbolic haystack")
     if path == 'core::str::<impl str>::chars':
+        s0_ = args[0]
+        while s0_[0] == 'ref':
+            s0_ = ex.load(st, s0_)
+        if s0_[0] == 'c' and isinstance(s0_[1], str):
+            # the characters of a literal: an ordinary sequence (every adapter and consumer applies)
+            return m_iter('ArrayIter', agg(('array',), [C(ord(ch_), 'char') for ch_ in s0_[1]]), C(0, 'usize')), st
         return m_iter('Chars', args[0], C(0, 'usize')), st
     if 'Chars' in path and name == 'as_str':
         it_ = ex.load(st, args[0]) if args[0][0] == 'ref' else args[0]
